@@ -325,6 +325,34 @@ static void run_plain(void)
             }
         }
     }
+    /* the result of a merge is a summary like any other: what two empty summaries merge into takes the data as a new
+     * one would (by adding, and as either operand of a further merge), and so does a prefix merged with nothing */
+    for (int k = 0; k <= n; k++) {
+        struct cmb_datasummary a, e1, e2, m, full, t;
+        summarise(&a, x, k);
+        summarise(&e1, x, 0);
+        summarise(&e2, x, 0);
+        cmb_datasummary_merge(&m, (k % 2) ? &e1 : &a, (k % 2) ? &a : &e2); /* the first k samples, merged with nothing */
+        for (int i = k; i < n; i++) {
+            cmb_datasummary_add(&m, x[i]);
+        }
+        vx_transition();
+        if (!check_summary(&m, &r, k == 0 ? "merged-empties-then-add" : "merge-then-add", shape(n))) {
+            return;
+        }
+        if (k == 0) {
+            summarise(&full, x, n);
+            cmb_datasummary_merge(&m, &e1, &e2);
+            cmb_datasummary_merge(&t, &m, &full);
+            if (!check_summary(&t, &r, "merged-empties-as-first-operand", shape(n))) {
+                return;
+            }
+            cmb_datasummary_merge(&t, &full, &m);
+            if (!check_summary(&t, &r, "merged-empties-as-second-operand", shape(n))) {
+                return;
+            }
+        }
+    }
     /* every split, both orders, all three target aliasings */
     for (int k = 0; k <= n; k++) {
         for (int order = 0; order < 2; order++) {
@@ -541,6 +569,27 @@ static void run_weighted(void)
             }
         }
         cmb_timeseries_terminate(&ts);
+    }
+    /* what two empty weighted summaries merge into is an empty summary: merged with the data (either side) it gives the
+     * data's count, extremes and mean */
+    if (r.count > 0) {
+        for (int side = 0; side < 2; side++) {
+            struct cmb_wtdsummary e1, e2, m, full, t;
+            wsummarise(&e1, x, w, 0, 1.0);
+            wsummarise(&e2, x, w, 0, 1.0);
+            wsummarise(&full, x, w, n, 1.0);
+            cmb_wtdsummary_merge(&m, &e1, &e2);
+            cmb_wtdsummary_merge(&t, side ? &full : &m, side ? &m : &full);
+            vx_transition();
+            const double sc1 = (double)(r.M[1] / r.wsum) + r.amax * 1e-12;
+            if (cmb_wtdsummary_count(&t) != r.count || cmb_wtdsummary_min(&t) != r.min || cmb_wtdsummary_max(&t) != r.max
+                || !close_rel(cmb_wtdsummary_mean(&t), r.mean, 1e-12, 1e-9 * sc1 + 1e-300)) {
+                snprintf(rule, sizeof rule, "weighted:merge:merged-empties-as-%s-operand", side ? "second" : "first");
+                FAIL(rule, "count %" PRIu64 " min %g max %g mean %.17g; exact %" PRIu64 " %g %g %.17g", cmb_wtdsummary_count(&t),
+                     cmb_wtdsummary_min(&t), cmb_wtdsummary_max(&t), cmb_wtdsummary_mean(&t), r.count, r.min, r.max, (double)r.mean);
+                return;
+            }
+        }
     }
     /* merges of weighted summaries */
     for (int k = 0; k <= n; k++) {
